@@ -8,6 +8,10 @@ TRANSPARENT = {"ImplicitCastExpr", "ParenExpr", "ExprWithCleanups",
                "ConstantExpr", "SubstNonTypeTemplateParmExpr", "FullExpr"}
 
 
+# maximal nesting rendered by Func.text (deeper sub-expressions print as '?'); rules comparing rendered expressions raise it
+TEXT_DEPTH = [12]
+
+
 class Block:
     __slots__ = ("id", "elems", "term", "termKind", "cond", "succs", "label",
                  "noreturn", "preds", "tempDtorBranch", "unreach")
@@ -214,7 +218,7 @@ class Func:
 
     def text(self, sid, depth=0):
         """compact pseudo-source of an expression for messages."""
-        if sid is None or sid <= 0 or depth > 12:
+        if sid is None or sid <= 0 or depth > TEXT_DEPTH[0]:
             return "?"
         n = self.stmts[sid]
         k = n["k"]
